@@ -16,6 +16,8 @@ struct RegInner {
   /// per id: (instances created, instances dropped)
   counts: std::collections::BTreeMap<u32, (u32, u32)>,
   double_drops: Vec<u32>,
+  /// ids whose memory changed (overwritten or dropped) while a clone of them was being taken
+  torn: Vec<u32>,
 }
 
 impl Registry {
@@ -38,6 +40,13 @@ impl Registry {
   /// ids dropped more often than created (or whose memory was dropped twice)
   pub fn double_drops(&self) -> Vec<u32> {
     self.inner.lock().unwrap().double_drops.clone()
+  }
+  fn torn_clone(&self, id: u32) {
+    self.inner.lock().unwrap().torn.push(id);
+  }
+  /// ids that were overwritten or destroyed while a reader was cloning them
+  pub fn torn(&self) -> Vec<u32> {
+    self.inner.lock().unwrap().torn.clone()
   }
   /// ids with live (undropped) instances
   pub fn live(&self) -> Vec<u32> {
@@ -68,10 +77,30 @@ impl Tracked {
   }
 }
 
+#[cfg(excsn_fibre_verif_shuttle)]
+thread_local! {
+  /// set by the E3 executors while a controlled-scheduler execution is running on this thread
+  pub static CLONE_IS_SCHED_POINT: std::cell::Cell<bool> = const { std::cell::Cell::new(false) };
+}
+
 impl Clone for Tracked {
   fn clone(&self) -> Tracked {
-    self.reg.created(self.id);
-    Tracked { id: self.id, magic: ALIVE, reg: self.reg.clone() }
+    let id = self.id;
+    let reg = self.reg.clone();
+    // Under the controlled scheduler copying a payload takes time: the other threads may run
+    // between the first and the last read of the source.  A channel that lets the source be
+    // overwritten or destroyed meanwhile ("an unread value is never overwritten") is caught here.
+    #[cfg(excsn_fibre_verif_shuttle)]
+    if CLONE_IS_SCHED_POINT.with(|c| c.get()) {
+      shuttle::thread::yield_now();
+      // (volatile: the compiler may otherwise assume that memory behind `&self` cannot change)
+      let (id2, magic2) = unsafe { (std::ptr::read_volatile(&self.id), std::ptr::read_volatile(&self.magic)) };
+      if id2 != id || magic2 != ALIVE {
+        reg.torn_clone(id);
+      }
+    }
+    reg.created(id);
+    Tracked { id, magic: ALIVE, reg }
   }
 }
 
